@@ -185,3 +185,224 @@ Proof.
   rewrite filter_app, IH. f_equal. unfold nz_row. induction r as [|[c v] r IHr]; [reflexivity|]. simpl.
   unfold nz3 at 1. unfold e_val. simpl. destruct (negb (Z.eqb v 0)); simpl; rewrite IHr; reflexivity.
 Qed.
+
+(* ================================================================== B. every form is faithful *)
+Lemma to_dense_checked nr nc es m : length m = nr -> rect nc m -> represents es nr nc m ->
+  match coo_checked nr nc es with
+  | ROk (a, b, es') => ROk (a, b, coo_dense a b es')
+  | RErr c => RErr c
+  end = ROk (nr, nc, m).
+Proof.
+  intros Hl R Rep. unfold coo_checked. destruct Rep as [A B]. rewrite A.
+  rewrite (coo_dense_is m nr nc es Hl R B). reflexivity.
+Qed.
+
+Lemma rectb_true c m : rect c m -> rectb c m = true.
+Proof. apply rectb_rect. Qed.
+
+(* the general statements: ANY entry list describing m (any order, explicit zeros, values split
+   over repeated cells) *)
+Theorem faithful_triples_gen es m c : rect c m -> represents es (length m) c m ->
+  to_dense (InTriples es) (length m, c) = ROk (length m, c, m).
+Proof.
+  intros R Rep. unfold to_dense, to_coo. destruct es as [|e es].
+  - simpl. rewrite (represents_dense [] (length m) c m eq_refl R Rep). reflexivity.
+  - apply to_dense_checked; [reflexivity|exact R|exact Rep].
+Qed.
+
+Theorem faithful_dict_gen es m c : rect c m -> represents es (length m) c m ->
+  to_dense (InDict es) (length m, c) = ROk (length m, c, m).
+Proof. intros R Rep. unfold to_dense, to_coo. apply to_dense_checked; [reflexivity|exact R|exact Rep]. Qed.
+
+Theorem faithful_sparse_gen es m c shape : rect c m -> represents es (length m) c m ->
+  to_dense (InSparse (length m) c es) shape = ROk (length m, c, m).
+Proof. intros R Rep. unfold to_dense, to_coo. apply to_dense_checked; [reflexivity|exact R|exact Rep]. Qed.
+
+(* the canonical encodings *)
+Theorem faithful_array m c shape : rect c m -> (length m * c = 0 -> shape = (length m, c)) ->
+  to_dense (enc_array c m) shape = ROk (length m, c, m).
+Proof.
+  intros R Hs. unfold to_dense, enc_array, to_coo.
+  destruct (Nat.eqb (length m * c) 0) eqn:E.
+  - apply Nat.eqb_eq in E. rewrite (Hs E). simpl.
+    rewrite (coo_dense_is m (length m) c [] eq_refl R); [reflexivity|].
+    intros i j Hi Hj. exfalso. destruct (length m); [lia|]. destruct c; simpl in E; lia.
+  - rewrite (represents_dense _ _ _ _ eq_refl R (scan_represents m c R)). reflexivity.
+Qed.
+
+Theorem faithful_lists m c shape : rect c m -> (m = [] -> shape = (0, c)) ->
+  to_dense (enc_lists m) shape = ROk (length m, c, m).
+Proof.
+  intros R Hs. unfold to_dense, enc_lists, to_coo. destruct m as [|r m'].
+  - rewrite (Hs eq_refl). reflexivity.
+  - assert (Hr : length r = c) by (inversion R; assumption). rewrite Hr.
+    rewrite (rectb_true c _ R).
+    rewrite (represents_dense _ _ _ _ eq_refl R (scan_represents (r :: m') c R)). reflexivity.
+Qed.
+
+Theorem faithful_rowarrays m c shape : rect c m -> (m = [] -> shape = (0, c)) ->
+  to_dense (enc_rowarrays m) shape = ROk (length m, c, m).
+Proof.
+  intros R Hs. unfold to_dense, enc_rowarrays, to_coo. destruct m as [|r m'].
+  - rewrite (Hs eq_refl). reflexivity.
+  - assert (Hr : length r = c) by (inversion R; assumption). rewrite Hr.
+    rewrite (rectb_true c _ R).
+    rewrite (represents_dense _ _ _ _ eq_refl R (scan_represents (r :: m') c R)). reflexivity.
+Qed.
+
+Theorem faithful_triples m c : rect c m -> to_dense (enc_triples m) (length m, c) = ROk (length m, c, m).
+Proof. intros R. apply faithful_triples_gen; [exact R|apply scan_represents; exact R]. Qed.
+
+Theorem faithful_triples_zeros m c : rect c m ->
+  to_dense (enc_triples_zeros m) (length m, c) = ROk (length m, c, m).
+Proof. intros R. apply faithful_triples_gen; [exact R|apply full_represents; exact R]. Qed.
+
+Theorem faithful_dict m c : rect c m -> to_dense (enc_dict m) (length m, c) = ROk (length m, c, m).
+Proof. intros R. apply faithful_dict_gen; [exact R|apply scan_represents; exact R]. Qed.
+
+Theorem faithful_sparse m c shape : rect c m -> to_dense (enc_sparse c m) shape = ROk (length m, c, m).
+Proof. intros R. apply faithful_sparse_gen; [exact R|apply scan_represents; exact R]. Qed.
+
+Lemma flatten_nz_rows m : flatten (map (fun r => nz_row (enum_from 0 r)) m) = scan m.
+Proof.
+  unfold scan, flatten, full_rows. rewrite <- flatten_nz. rewrite map_map. reflexivity.
+Qed.
+
+Lemma sparserows_to_coo c (l : list row_entries) shape : l <> [] ->
+  to_coo (InSparseRows (map (fun e => (c, e)) l)) shape = coo_checked (length l) c (flatten l).
+Proof.
+  intros Hne. destruct l as [|e l]; [contradiction|].
+  assert (W : forallb (fun r0 : nat * row_entries => Nat.eqb (fst r0) c) (map (fun e => (c, e)) (e :: l)) = true).
+  { apply forallb_forall. intros x Hx. apply in_map_iff in Hx. destruct Hx as [y [<- _]]. apply Nat.eqb_refl. }
+  assert (S : map snd (map (fun e : row_entries => (c, e)) (e :: l)) = e :: l).
+  { rewrite map_map. simpl. f_equal. induction l as [|x l IH]; [reflexivity|]. simpl. f_equal. exact IH. }
+  unfold to_coo. change (map (fun e0 : row_entries => (c, e0)) (e :: l))
+    with ((c, e) :: map (fun e0 : row_entries => (c, e0)) l) at 1.
+  cbv iota beta. rewrite W, S. rewrite map_length. reflexivity.
+Qed.
+
+Theorem faithful_sparserows m c shape : rect c m -> (m = [] -> shape = (0, c)) ->
+  to_dense (enc_sparserows c m) shape = ROk (length m, c, m).
+Proof.
+  intros R Hs. unfold to_dense, enc_sparserows. destruct m as [|r m'] eqn:Em.
+  - rewrite (Hs eq_refl). reflexivity.
+  - rewrite <- Em in *.
+    replace (map (fun r0 : list Z => (c, nz_row (enum_from 0 r0))) m)
+      with (map (fun e : row_entries => (c, e)) (map (fun r0 => nz_row (enum_from 0 r0)) m))
+      by (rewrite map_map; reflexivity).
+    rewrite sparserows_to_coo by (rewrite Em; discriminate).
+    rewrite flatten_nz_rows, map_length.
+    apply to_dense_checked; [reflexivity|exact R|apply scan_represents; exact R].
+Qed.
+
+(* ---- list of row dicts: general statement for dicts keyed (0, column) *)
+Lemma nmax_ge x l : In x l -> x <= nmax l.
+Proof.
+  induction l as [|y l IH]; simpl; intros H; [destruct H|]. destruct H as [->|H]; [lia|]. specialize (IH H). lia.
+Qed.
+Lemma nmax_le b l : (forall x, In x l -> x <= b) -> nmax l <= b.
+Proof.
+  induction l as [|y l IH]; simpl; intros H; [lia|].
+  assert (y <= b) by (apply H; left; reflexivity).
+  assert (nmax l <= b) by (apply IH; intros x Hx; apply H; right; exact Hx). lia.
+Qed.
+
+Definition strip (row : list entry3) : row_entries := map (fun e => (e_col e, e_val e)) row.
+
+Theorem faithful_rowdicts_gen rows m c :
+  rect c m -> length rows = length m -> concat rows <> [] ->
+  (forall e, In e (concat rows) -> e_row e = 0 /\ e_col e < c) ->
+  (forall i j, i < length m -> j < c -> row_sum (strip (nth i rows [])) j = get m i j) ->
+  to_dense (InRowDicts rows) (length m, c) = ROk (length m, c, m).
+Proof.
+  intros R Hl Hne Hk Hs. unfold to_dense, to_coo.
+  destruct rows as [|r0 rows'] eqn:Er; [exfalso; apply Hne; reflexivity|]. rewrite <- Er in *.
+  destruct (concat rows) as [|k0 ks] eqn:Ek; [exfalso; apply Hne; reflexivity|]. rewrite <- Ek in *.
+  assert (Hrow0 : nmax (map e_row (concat rows)) = 0).
+  { apply Nat.le_0_r. apply nmax_le. intros x Hx. apply in_map_iff in Hx. destruct Hx as [e [<- He]].
+    destruct (Hk e He) as [A _]. lia. }
+  assert (Hc : c > 0).
+  { assert (In k0 (concat rows)) by (rewrite Ek; left; reflexivity). destruct (Hk k0 H). lia. }
+  assert (Hcol : S (nmax (map e_col (concat rows))) <= c).
+  { assert (nmax (map e_col (concat rows)) <= c - 1); [|lia]. apply nmax_le. intros x Hx.
+    apply in_map_iff in Hx. destruct Hx as [e [<- He]]. destruct (Hk e He). lia. }
+  rewrite Hrow0.
+  replace (Nat.ltb (S (nmax (map e_col (concat rows)))) 1) with false by (symmetry; apply Nat.ltb_ge; lia).
+  cbn [fst snd]. rewrite (Nat.max_r _ c Hcol). rewrite Hl.
+  apply to_dense_checked; [reflexivity|exact R|]. split.
+  - unfold flatten. apply in_range_flatten; [rewrite map_length; lia|].
+    apply Forall_forall. intros r Hr. apply in_map_iff in Hr. destruct Hr as [row [<- Hrow]].
+    apply Forall_forall. intros cv Hcv. apply in_map_iff in Hcv. destruct Hcv as [e [<- He]]. simpl.
+    apply (Hk e). apply in_concat. exists row. tauto.
+  - intros i j Hi Hj. unfold flatten. rewrite cell_sum_flatten, map_length, Hl.
+    replace (Nat.leb 0 i && Nat.ltb i (0 + length m)) with true
+      by (symmetry; apply andb_true_iff; split; [apply Nat.leb_le|apply Nat.ltb_lt]; lia).
+    rewrite Nat.sub_0_r.
+    rewrite (nth_indep _ [] (map (fun e => (e_col e, e_val e)) [])) by (rewrite map_length; lia).
+    rewrite (map_nth (map (fun e => (e_col e, e_val e)))). apply Hs; assumption.
+Qed.
+
+Lemma row_sum_nz r j : row_sum (nz_row r) j = row_sum r j.
+Proof.
+  unfold row_sum, nz_row. induction r as [|[c v] r IH]; [reflexivity|]. simpl.
+  destruct (negb (Z.eqb v 0)) eqn:E; simpl.
+  - destruct (Nat.eqb c j); simpl; rewrite IH; reflexivity.
+  - apply negb_false_iff in E. apply Z.eqb_eq in E. subst v. rewrite IH.
+    destruct (Nat.eqb c j); simpl; lia.
+Qed.
+
+Lemma strip_keyed (l : row_entries) : strip (map (fun cv : nat * Z => (0, fst cv, snd cv)) l) = l.
+Proof. unfold strip. rewrite map_map. induction l as [|[c v] l IH]; [reflexivity|]. simpl. rewrite IH. reflexivity. Qed.
+
+Definition has_nonzero (m : matrix) : Prop := exists i j, get m i j <> 0%Z.
+
+Lemma nz_row_in r cv : In cv (nz_row r) -> In cv r /\ snd cv <> 0%Z.
+Proof.
+  unfold nz_row. intros H. apply filter_In in H. destruct H as [A B]. split; [exact A|].
+  apply negb_true_iff in B. apply Z.eqb_neq in B. exact B.
+Qed.
+
+Lemma enum_from_nth s row j : j < length row -> In (s + j, nth j row 0%Z) (enum_from s row).
+Proof.
+  revert s j. induction row as [|v row IH]; intros s j Hj; simpl in Hj; [lia|].
+  destruct j as [|j]; simpl.
+  - left. f_equal. lia.
+  - right. replace (s + S j) with (S s + j) by lia. apply IH. lia.
+Qed.
+
+Theorem faithful_rowdicts m c : rect c m -> has_nonzero m ->
+  to_dense (enc_rowdicts m) (length m, c) = ROk (length m, c, m).
+Proof.
+  intros R (i & j & Hnz). unfold enc_rowdicts.
+  assert (Hi : i < length m).
+  { destruct (Nat.lt_ge_cases i (length m)) as [H|H]; [exact H|]. exfalso. apply Hnz. unfold get.
+    rewrite (nth_overflow m) by exact H. destruct j; reflexivity. }
+  assert (Hj : j < c).
+  { destruct (Nat.lt_ge_cases j c) as [H|H]; [exact H|]. exfalso. apply Hnz. unfold get.
+    apply nth_overflow. rewrite (rect_nth_length c m i R Hi). exact H. }
+  set (f := fun r : list Z => map (fun cv : nat * Z => (0, fst cv, snd cv)) (nz_row (enum_from 0 r))).
+  apply faithful_rowdicts_gen.
+  - exact R.
+  - apply map_length.
+  - intros E.
+    assert (Hin : In (0, j, get m i j) (concat (map f m))).
+    { apply in_concat. exists (f (nth i m [])). split; [apply in_map; apply nth_In; exact Hi|].
+      unfold f. apply in_map_iff. exists (j, get m i j). split; [reflexivity|].
+      unfold nz_row. apply filter_In. split.
+      - pose proof (enum_from_nth 0 (nth i m []) j) as H. simpl in H. apply H.
+        rewrite (rect_nth_length c m i R Hi). exact Hj.
+      - simpl. apply negb_true_iff. apply Z.eqb_neq. exact Hnz. }
+    rewrite E in Hin. destruct Hin.
+  - intros e He. apply in_concat in He. destruct He as [l [Hl He]]. apply in_map_iff in Hl.
+    destruct Hl as [row [<- Hrow]]. unfold f in He. apply in_map_iff in He. destruct He as [cv [<- Hcv]].
+    apply nz_row_in in Hcv. destruct Hcv as [Hcv _]. unfold e_row, e_col. simpl. split; [reflexivity|].
+    pose proof (enum_from_bound 0 row) as B. rewrite Forall_forall in B. specialize (B cv Hcv).
+    unfold rect in R. rewrite Forall_forall in R. rewrite (R row Hrow) in B. exact B.
+  - intros i' j' Hi' Hj'.
+    rewrite (nth_indep _ [] (f [])) by (rewrite map_length; exact Hi').
+    rewrite (map_nth f). unfold f. rewrite strip_keyed, row_sum_nz, row_sum_enum.
+    rewrite (rect_nth_length c m i' R Hi').
+    replace (Nat.leb 0 j' && Nat.ltb j' (0 + c)) with true
+      by (symmetry; apply andb_true_iff; split; [apply Nat.leb_le|apply Nat.ltb_lt]; lia).
+    rewrite Nat.sub_0_r. reflexivity.
+Qed.
